@@ -169,8 +169,8 @@ func (p *Prog) NormCmp(v ssa.Value, truth bool) *Cmp {
 			op = token.EQL
 		}
 	}
-	l, lc := splitConst(p.Sym(bo.X))
-	r, rc := splitConst(p.Sym(bo.Y))
+	l, lc := splitConst(p.SymX(bo.X)) // operands may be calls of expression functions (length(x))
+	r, rc := splitConst(p.SymX(bo.Y))
 	c := &Cmp{L: l, R: r, LC: lc, RC: rc, Op: op}
 	if b, ok := bo.X.Type().Underlying().(*types.Basic); ok && b.Info()&types.IsUnsigned != 0 {
 		c.Unsig = true
